@@ -102,6 +102,33 @@ def rule_miller(fx, rep):
         return
     rep.fn(ML)
     where = fx.fn(ML)['span']
+    # the line-evaluation helper: the private function, reachable from miller_loop through private helpers
+    # only, that applies the sparse multiplication (Fq12::mul_by_014); everything else private is inlined
+    import inline as INL
+    ELL = None
+    seen_, todo = set(), [ML]
+    while todo:
+        q = todo.pop()
+        if q in seen_:
+            continue
+        seen_.add(q)
+        bq = fx.body(q)
+        if bq is None:
+            continue
+        for _, tt in bq.calls():
+            cc = callee(tt)
+            if not cc:
+                continue
+            if cc.get('name') == 'mul_by_014' and q != ML:
+                ELL = q
+            r_ = cc.get('res')
+            if cc.get('res_local') and r_ and INL.is_private_helper(fx, r_):
+                todo.append(r_)
+    if ELL is None:
+        rep.fail('GUARD', 'miller_loop:line-helper', 'no private helper of miller_loop applies the sparse line multiplication', where)
+        return
+    rep.fn(ELL)
+    ml_body = INL.inlined(fx, ML, lambda q: INL.is_private_helper(fx, q) and q != ELL and q.startswith(ML + '::'))
     ncoef = len(steps)
     n_scen = 0
     bad = []
@@ -119,7 +146,7 @@ def rule_miller(fx, rep):
                 nm = c.get('name')
                 res = c.get('res') or c['def']
                 args = t['args']
-                if res == ML + '::ell':
+                if res == ELL:
                     coef = fr.deref_operand(args[1])
                     pt = fr.deref_operand(args[2])
                     events.append(('ell', coef, pt))
@@ -167,9 +194,6 @@ def rule_miller(fx, rep):
                     if isinstance(v, Agg):
                         fr.storev(t['dest'], SliceIt(v.items, 0))
                         return True
-                if nm in ('deref', 'deref_mut') and 'Vec' in res:
-                    fr.storev(t['dest'], fr.deref_operand(args[0]))
-                    return True
                 if nm == 'unwrap' and c['def'].startswith('std::option::Option'):
                     v = fr.operand(args[0])
                     if isinstance(v, Opt):
@@ -183,6 +207,7 @@ def rule_miller(fx, rep):
                 return bitlin.transfer(I, fr, t, c, pth)
             I = exp.Interp(fx, 'none', inline=lambda q: q.endswith('G1Prepared::is_zero') or q.endswith('G2Prepared>::is_zero') or q.endswith('G2Prepared::is_zero') or q.endswith('CurveAffine>::is_zero'),
                            extra_transfer=tr, max_steps=400000)
+            I.body_override = {ML: ml_body}
             try:
                 res = I.run(ML, [SliceIt(items, 0)])
             except (exp.NotDerivable, exp.Budget) as e:
@@ -229,8 +254,54 @@ def rule_miller(fx, rep):
               '; '.join(bad[:3]), where, construct=ML)
 
 
+def _pairing_run(fx, path, args, extra=None):
+    """Interpret one of the Engine pairing helpers with symbolic elements; prepare / miller_loop /
+    final_exponentiation are uninterpreted constructors, so the returned term shows the wiring."""
+    def deep(fr, v):
+        for _ in range(8):
+            if isinstance(v, Ref):
+                v = fr._project(fr.store.get(v.root, TOP), v.proj)
+            else:
+                break
+        if isinstance(v, Agg):
+            return ('tuple',) + tuple(deep(fr, x) for x in v.items)
+        return v
+
+    def tr(I, fr, t, c, pth):
+        nm = c.get('name')
+        a = t['args']
+        if nm == 'prepare' and c.get('trait') == 'CurveAffine':
+            fr.storev(t['dest'], ('prep', deep(fr, fr.deref_operand(a[0]))))
+            return True
+        if nm == 'miller_loop' and c.get('trait') == 'Engine':
+            import stdmodel
+            itv = stdmodel.as_iter(I, fr, a[0])
+            if itv is None:
+                return False
+            items = stdmodel.drain(I, itv, t['span'])
+            pth.events.append(('miller_loop',))
+            fr.storev(t['dest'], ('ml', tuple(deep(fr, x) for x in items)))
+            return True
+        if nm == 'final_exponentiation' and c.get('trait') == 'Engine':
+            pth.events.append(('final_exponentiation',))
+            fr.storev(t['dest'], Opt('some', ('fe', deep(fr, fr.deref_operand(a[0])))))
+            return True
+        if nm == 'unwrap' and c['def'].startswith('std::option::Option'):
+            v = fr.operand(a[0])
+            if isinstance(v, Opt) and v.tag == 'some':
+                fr.storev(t['dest'], v.payload)
+                return True
+            return False
+        return bitlin.transfer(I, fr, t, c, pth)
+    I = exp.Interp(fx, 'none', extra_transfer=tr, max_steps=200000)
+    res = I.run(path, args, extra=extra)
+    res = [r for r in res if not (isinstance(r[1], tuple) and r[1] and r[1][0] == 'diverges')]
+    return I, res
+
+
 def rule_wiring(fx, rep):
-    # Engine::pairing (trait default)
+    """pairing / pairing_product / pairing_multi_product = final_exponentiation(miller_loop([(prepare(p_i), prepare(q_i))]))
+    with matching indices: decided by interpreting the helpers over symbolic elements (any loop / iterator shape)."""
     for nm, npairs in (('pairing', 1), ('pairing_product', 2)):
         p = fx.trait_default('Engine', nm)
         b = fx.body(p) if p else None
@@ -240,81 +311,36 @@ def rule_wiring(fx, rep):
         rep.fn(p)
         over = [i['self_ty'] for i in fx.impls_of('Engine') for it in i['items'] if it['name'] == nm]
         rep.check(not over, 'WIRE', 'Engine::%s:not-overridden' % nm, 'Bls12 uses the default', 'overridden by %s' % over)
-        o = Origin(b)
-        t = strip(o.local(0))
-        ok = t[0] == 'call' and t[1].get('name') == 'unwrap'
-        why = 'result is %s' % term_str(t)[:200]
-        if ok:
-            fe = strip(t[2][0])
-            ok = fe[0] == 'call' and fe[1].get('name') == 'final_exponentiation' and fe[1].get('trait') == 'Engine'
-            if ok:
-                ml = strip(fe[2][0])
-                ok = ml[0] == 'call' and ml[1].get('name') == 'miller_loop'
-                if ok:
-                    it = strip(ml[2][0])
-                    # iter() over an array of tuples
-                    while it[0] == 'call' and it[1].get('name') in ('iter', 'into_iter'):
-                        it = strip(it[2][0])
-                    ok = it[0] == 'agg' and 'array' in it[1] and len(it[2]) == npairs
-                    why = 'miller_loop is fed %s' % term_str(it)[:200]
-                    if ok:
-                        for k, pair in enumerate(it[2]):
-                            pair = strip(pair)
-                            if not (pair[0] == 'agg' and len(pair[2]) == 2):
-                                ok = False
-                                break
-                            for side, el in enumerate(pair[2]):
-                                el = strip(el)
-                                good = el[0] == 'call' and el[1].get('name') == 'prepare' and strip(el[2][0])[0] == 'call' and strip(el[2][0])[1].get('name') == 'into'
-                                if good:
-                                    src = strip(strip(el[2][0])[2][0])
-                                    good = src == ('param', 2 * k + side + 1)
-                                if not good:
-                                    ok = False
-                                    why = 'pair %d side %d is %s' % (k, side, term_str(el)[:160])
-        nm_calls = {}
-        for _, tt in b.calls():
-            c = callee(tt)
-            if c:
-                nm_calls[c.get('name')] = nm_calls.get(c.get('name'), 0) + 1
-        ok = ok and nm_calls.get('miller_loop') == 1 and nm_calls.get('final_exponentiation') == 1
-        rep.check(ok, 'WIRE', 'Engine::%s' % nm, 'final_exponentiation(miller_loop([(prepare(p_i), prepare(q_i))])) with one Miller loop and one final exponentiation', why, fx.fn(p)['span'], construct=p)
-    # pairing_multi_product: same index for both lists
+        args = []
+        for k in range(npairs):
+            args += [('P', k), ('Q', k)]
+        want = ('fe', ('ml', tuple(('tuple', ('prep', ('P', k)), ('prep', ('Q', k))) for k in range(npairs))))
+        try:
+            I, res = _pairing_run(fx, p, args)
+            rep.sites(I.call_sites)
+            ok = len(res) == 1 and res[0][1] == want and [e[0] for e in res[0][0].events].count('miller_loop') == 1
+            rep.check(ok, 'WIRE', 'Engine::%s' % nm, 'final_exponentiation(miller_loop([(prepare(p_i), prepare(q_i))])) with one Miller loop and one final exponentiation',
+                      'returns %r' % ([r[1] for r in res],), fx.fn(p)['span'], construct=p)
+        except (exp.NotDerivable, exp.Budget) as e:
+            rep.fail('WIRE', 'Engine::%s' % nm, 'not derivable: %s' % e, fx.fn(p)['span'], construct=p)
+    # pairing_multi_product: same index for both lists, for 0..3 pairs
     p = fx.trait_default('Engine', 'pairing_multi_product')
     b = fx.body(p) if p else None
     if b is not None:
         rep.fn(p)
-        o = Origin(b)
-        pushes = [tt for _, tt in b.calls() if (callee(tt) or {}).get('name') == 'push']
-        ok = len(pushes) == 1
-        why = '%d pushes' % len(pushes)
-        if ok:
-            tup = strip(o.operand(pushes[0]['args'][1]))
-            ok = tup[0] == 'agg' and len(tup[2]) == 2
-            if ok:
-                sides = []
-                for el in tup[2]:
-                    el = strip(el)
-                    if el[0] == 'call' and el[1].get('name') == 'index':
-                        base = strip(el[2][0])
-                        idx = strip(el[2][1])
-                        # base = collect(map(iter(param k), prepare-closure))
-                        src = base
-                        for _ in range(6):
-                            if src[0] == 'call' and src[1].get('name') in ('collect', 'map', 'iter'):
-                                src = strip(src[2][0])
-                        sides.append((src, idx))
-                    else:
-                        sides.append((None, None))
-                ok = sides[0][0] == ('param', 1) and sides[1][0] == ('param', 2) and sides[0][1] == sides[1][1] and sides[0][1] is not None
-                why = 'pushed pair is built from %s' % ([term_str(s[0]) if s[0] else None for s in sides],)
-        cnt = {}
-        for _, tt in b.calls():
-            c = callee(tt)
-            if c:
-                cnt[c.get('name')] = cnt.get(c.get('name'), 0) + 1
-        ok = ok and cnt.get('miller_loop') == 1 and cnt.get('final_exponentiation') == 1
-        rep.check(ok, 'WIRE', 'Engine::pairing_multi_product', 'pairs (prepare(p[i]), prepare(q[i])) with the same index; one Miller loop, one final exponentiation', why, fx.fn(p)['span'], construct=p)
+        bad = []
+        for n in range(4):
+            extra = {'PS': Agg([('P', k) for k in range(n)]), 'QS': Agg([('Q', k) for k in range(n)])}
+            want = ('fe', ('ml', tuple(('tuple', ('prep', ('P', k)), ('prep', ('Q', k))) for k in range(n))))
+            try:
+                I, res = _pairing_run(fx, p, [Ref('PS', []), Ref('QS', [])], extra=extra)
+                rep.sites(I.call_sites)
+                if not (len(res) == 1 and res[0][1] == want and [e[0] for e in res[0][0].events].count('miller_loop') == 1):
+                    bad.append('%d pairs: returns %r' % (n, [r[1] for r in res]))
+            except (exp.NotDerivable, exp.Budget) as e:
+                bad.append('%d pairs: not derivable: %s' % (n, e))
+        rep.check(not bad, 'WIRE', 'Engine::pairing_multi_product', 'for 0..3 pairs: one final exponentiation of one Miller loop over (prepare(p[i]), prepare(q[i])) with the same index',
+                  '; '.join(bad[:2])[:600], fx.fn(p)['span'], construct=p)
     else:
         rep.fail('WIRE', 'Engine::pairing_multi_product:anchor', 'not found')
     # pairing_with in both directions
